@@ -268,6 +268,8 @@ pub struct GenCfg {
     pub int_pool: Vec<String>,
     pub float_pool: Vec<String>,
     pub str_pool: Vec<String>,
+    /// leaves of container type are empty (sequences, optionals, hence sets / mappings / ...)
+    pub empty_containers: bool,
 }
 
 pub struct Gen<'a, 'b> {
@@ -363,8 +365,8 @@ impl<'a, 'b> Gen<'a, 'b> {
             }
             Ty::Native(name, args) => match (name.as_str(), args.as_slice()) {
                 ("Sequence", [el]) => {
-                    let n = self.t.below(4);
-                    if n == 0 && matches!(el, Ty::Int) && self.t.bool() {
+                    let n = if self.cfg.empty_containers { 0 } else { self.t.below(4) };
+                    if n == 0 && matches!(el, Ty::Int) && !self.cfg.empty_containers && self.t.bool() {
                         return format!("range({})", self.t.range(0, 6));
                     }
                     let parts: Vec<String> = (0..n).map(|_| self.expr(el, fuel.saturating_sub(1))).collect();
@@ -376,7 +378,7 @@ impl<'a, 'b> Gen<'a, 'b> {
                     }
                 }
                 ("Optional", [el]) => {
-                    if self.t.below(4) == 0 {
+                    if self.cfg.empty_containers || self.t.below(4) == 0 {
                         // none() is Optional<unknown>, assignable to any optional
                         format!("then(false, {})", self.expr(el, 0))
                     } else {
